@@ -205,6 +205,17 @@ def toplevel_faults():
                 out.append(("%s [%s, %s]" % (cls, fname, tn), bad_src, good_src, {}))
     for (fname, bad_src), (_, good_src) in zip(forms("rn%N%", "nichts", "\tGib 1 zurück."), forms("rn%N%", "nichts", "\tVerlasse die Funktion.")):
         out.append(("return value from nothing-function [%s]" % fname, bad_src, good_src, {}))
+    # articles in the declarations of GENERIC functions: a type parameter alone matches every article, a list of it is feminine like every list
+    gen = lambda name, ret, ptype, body: ("Die generische Funktion %s mit dem Parameter gp vom Typ %s, gibt %s zurück, macht:\n%s\nUnd kann so benutzt werden:\n\t\"%s <gp>\"\n" % (name, ptype, ret, body, name))
+    glist = "\tGib gp zurück."
+    for bad_art in ("einen", "ein"):
+        out.append(("wrong article: generic return type T Liste (%s)" % bad_art, gen("ga%N%", bad_art + " T Liste", "T Liste", glist) + "Die Zahlen Liste gl%N% ist ga%N% (eine Liste, die aus 1 besteht).\n",
+                    gen("ga%N%", "eine T Liste", "T Liste", glist) + "Die Zahlen Liste gl%N% ist ga%N% (eine Liste, die aus 1 besteht).\n", {}))
+    wrap = "\tGib eine Liste, die aus gp besteht zurück."
+    out.append(("wrong article: generic return type T Liste from T", gen("gb%N%", "einen T Liste", "T", wrap) + "Die Zahlen Liste gm%N% ist gb%N% 1.\n",
+                gen("gb%N%", "eine T Liste", "T", wrap) + "Die Zahlen Liste gm%N% ist gb%N% 1.\n", {}))
+    out.append(("wrong article: local T Liste in a generic body", gen("gc%N%", "nichts", "T", "\tDer T Liste lokal ist eine Liste, die aus gp besteht.") + "gc%N% 1.\n",
+                gen("gc%N%", "nichts", "T", "\tDie T Liste lokal ist eine Liste, die aus gp besteht.") + "gc%N% 1.\n", {}))
     out.append(("returned value type", fn("falsch%N%", "eine Zahl", '\tGib "text" zurück.'), fn("falsch%N%", "eine Zahl", "\tGib 1 zurück."), {}))
     out.append(("returned value type: list", fn("falsch%N%", "einen Text", "\tGib (eine Liste, die aus 1 besteht) zurück."), fn("falsch%N%", "einen Text", '\tGib "a" zurück.'), {}))
     out.append(("return value from nothing-function", fn("nix%N%", "nichts", "\tGib 1 zurück."), fn("nix%N%", "nichts", "\tVerlasse die Funktion."), {}))
